@@ -114,7 +114,7 @@ class Zone:
         if keep_through:
             ins = [(a, c) for (a, b), c in self.e.items() if b == t and a != t]
             outs = [(b, c) for (a, b), c in self.e.items() if a == t and b != t]
-            if len(ins) * len(outs) <= 64:
+            if len(ins) * len(outs) <= 2500:
                 for a, c1 in ins:
                     for b, c2 in outs:
                         if a != b:
@@ -122,6 +122,9 @@ class Zone:
         for k in [k for k in self.e if k[0] == t or k[1] == t]:
             del self.e[k]
         self._dirty()
+        if not t.startswith("Σ("):
+            for comp in [x for x in self.terms() if x.startswith("Σ(") and t in x[2:-1].split("+")]:
+                self.kill(comp)
 
     def kill_prefix(self, prefix):
         ts = {x for k in self.e for x in k if _rooted(x, prefix)}
@@ -130,6 +133,8 @@ class Zone:
 
     def shift(self, t, c):
         """t := t + c"""
+        for comp in [x for x in self.terms() if x.startswith("Σ(") and t in x[2:-1].split("+")]:
+            self.kill(comp)
         ne = {}
         for (a, b), w in self.e.items():
             if a == t and b != t:
@@ -144,7 +149,11 @@ class Zone:
     def terms(self):
         return {x for k in self.e for x in k}
 
-    def join(self, other):
+    def all_dists(self, a):
+        self.dist(a, "0")
+        return self._dc.get(a, {a: 0})
+
+    def join(self, other, important=None):
         if self.bottom:
             return other.copy()
         if other.bottom:
@@ -152,16 +161,38 @@ class Zone:
         z = Zone()
         keys = set(self.e) | set(other.e)
         for (a, b) in keys:
-            c1 = self.e.get((a, b))
-            c2 = other.e.get((a, b))
-            if c1 is None:
-                c1 = self.dist(a, b)
-            if c2 is None:
-                c2 = other.dist(a, b)
+            c1 = self.dist(a, b)
+            c2 = other.dist(a, b)
             c = max(c1, c2)
             if c != INF:
                 z.e[(a, b)] = c
+        # facts implied on both sides but explicit on neither: close over the important (stable, named) terms
+        common = self.terms() & other.terms()
+        imp = [t for t in common if t == "0" or t.startswith("len(") or t.startswith("pos(") or (important and t in important)]
+        if len(imp) <= 24:
+            for a in imp:
+                da, db = self.all_dists(a), other.all_dists(a)
+                for b in imp:
+                    if a == b or (a, b) in z.e:
+                        continue
+                    c1, c2 = da.get(b, INF), db.get(b, INF)
+                    if c1 != INF and c2 != INF:
+                        c = max(c1, c2)
+                        if a != "0" and b != "0" and abs(c) > 2 ** 40:
+                            continue        # only type-range noise
+                        z.e[(a, b)] = c
         return z
+
+    def reduce(self):
+        """Drop edges implied by two others through '0' (keeps the edge set small)."""
+        e = self.e
+        for (a, b) in list(e):
+            if a == "0" or b == "0":
+                continue
+            ha, lb = e.get((a, "0")), e.get(("0", b))
+            if ha is not None and lb is not None and ha + lb <= e[(a, b)]:
+                del e[(a, b)]
+        self._dirty()
 
     def widen(self, new):
         if self.bottom:
@@ -169,10 +200,11 @@ class Zone:
         if new.bottom:
             return self.copy()
         z = Zone()
-        for k, c in self.e.items():
-            c2 = new.e.get(k)
-            if c2 is None:
-                c2 = new.dist(k[0], k[1])
+        for k in set(self.e) | set(new.e):
+            c = self.dist(k[0], k[1])
+            if c == INF:
+                continue
+            c2 = new.dist(k[0], k[1])
             if c2 <= c:
                 z.e[k] = c
         return z
@@ -209,6 +241,8 @@ class State:
         self.boolx = {}     # bool local -> ("cmp", op, a_term, a_off, b_term, b_off) | ("tagis", term, variant) | ("not", local)
         self.ghost = {}     # result local -> pending effect to apply when its tag is refined to Ok/Some
 
+    important = None     # set per function by Interp: terms of user variables
+
     def copy(self):
         s = State()
         s.z = self.z.copy()
@@ -226,7 +260,7 @@ class State:
         if o.z.bottom:
             return self.copy()
         s = State()
-        s.z = self.z.join(o.z)
+        s.z = self.z.join(o.z, State.important)
         for k, v in self.tags.items():
             if k in o.tags:
                 s.tags[k] = v | o.tags[k]
@@ -301,6 +335,7 @@ class Interp:
         self.profile = profile
         self.obls = {}          # (block, idx) -> Obligation
         self.ret_states = []
+        self.ret_defs = []      # states right after each definition of the return place
         self.call_sites = []    # (block, callee key, state) for lifted preconditions
         self.assume = assume or []   # list of (a, b, c) facts assumed at entry (lifted to callers)
         self.unmodelled = set()
@@ -429,18 +464,23 @@ class Interp:
         return live_in
 
     def prune(self, st, live):
-        keep = set(live)
+        keep = set(live) | set(range(0, self.f["argc"] + 1))
         # referents of live reference temporaries stay
         for l, tgt in st.refs.items():
             if l in live:
                 for m in _LOCAL.finditer(tgt):
                     keep.add(int(m.group(1)))
-        for l, g in st.ghost.items():
-            if l in live:
-                for x in g:
-                    if isinstance(x, str):
-                        for m in _LOCAL.finditer(x):
-                            keep.add(int(m.group(1)))
+        changed = True
+        while changed:
+            changed = False
+            for l, g in st.ghost.items():
+                if l in keep:
+                    for x in g:
+                        if isinstance(x, str):
+                            for m in _LOCAL.finditer(x):
+                                if int(m.group(1)) not in keep:
+                                    keep.add(int(m.group(1)))
+                                    changed = True
         for l, bx in st.boolx.items():
             if l in live:
                 for x in bx:
@@ -467,9 +507,16 @@ class Interp:
             for k in [k for k in d_ if k not in keep]:
                 del d_[k]
 
-    def run(self, max_iter=4000):
+    def run(self, max_iter=6000):
         fv = self.fv
         self.live_in = self.liveness()
+        State.important = {"L%d" % l for l in fv.local_name}
+        # widening points: targets of back edges (loop heads) only
+        self.wpoints = set()
+        for b in fv.live:
+            for _, s2 in fv.succ[b]:
+                if fv.dominates(s2, b):
+                    self.wpoints.add(s2)
         entry = State()
         self.init_entry(entry)
         IN = {fv.entry: entry}
@@ -494,7 +541,7 @@ class Interp:
                     if s2.leq(old):
                         continue
                     visits[tgt] += 1
-                    new = old.widen(s2) if visits[tgt] > 2 else old.join(s2)
+                    new = old.widen(s2) if (visits[tgt] > 2 and tgt in self.wpoints) or visits[tgt] > 12 else old.join(s2)
                     if not old.leq(new) or not new.leq(old):
                         IN[tgt] = new
                         if tgt not in work:
@@ -592,6 +639,8 @@ class Interp:
         for si, s in enumerate(blk["s"]):
             if "rv" in s:
                 self.do_assign(st, s, b, si, record)
+                if record and s["p"]["l"] == 0 and not s["p"].get("p"):
+                    self.ret_defs.append(st.copy())
             elif "sd" in s:
                 t = self.canon(st, s["sd"])
                 st.tags[t] = frozenset([s["vn"]])
@@ -607,6 +656,8 @@ class Interp:
             outs.append((t["to"], st))
         elif k == "call":
             self.do_call(st, t, b, record)
+            if record and t.get("dest") and t["dest"]["l"] == 0 and not t["dest"].get("p"):
+                self.ret_defs.append(st.copy())
             if t.get("to") is not None:
                 outs.append((t["to"], st))
         elif k == "drop":
@@ -751,8 +802,11 @@ class Interp:
                     if src is not None:
                         if src[0] == "0":
                             st.z.set_range(ft, src[1], src[1])
+                            st.vals[ft] = frozenset([src[1]])
                         else:
                             st.z.eq(ft, src[0], 0)
+                            if src[0] in st.vals:
+                                st.vals[ft] = st.vals[src[0]]
                     fp = fo.get("c") or fo.get("m")
                     if fp is not None and not fp.get("p"):
                         self.copy_subterms(st, self.canon(st, fp), ft)
@@ -895,7 +949,7 @@ class Interp:
                     return ((), tt[1])
                 if lin:
                     return lin
-                return ((tt[0],), 0)
+                return ((self.rep(st, tt[0]),), 0)
             fa, fc = form(ta, lina), form(tc, linc)
             vars_ = tuple(sorted(fa[0] + fc[0]))
             k = fa[1] + fc[1]
@@ -1231,6 +1285,28 @@ class Interp:
         elif kind in ("DivisionByZero", "RemainderByZero"):
             pass
 
+    def rep(self, st, term):
+        """A stable representative of `term` among the terms the zone knows to be equal to it (transitively):
+        pos()/len() terms first, then user variables, else the term itself."""
+        seen = {term}
+        work = [term]
+        named = None
+        while work:
+            x = work.pop()
+            for (a, b), c in st.z.e.items():
+                if a == x and c == 0 and b != "0" and b not in seen and st.z.e.get((b, a)) == 0:
+                    seen.add(b)
+                    work.append(b)
+        cands = sorted(seen)
+        for b in cands:
+            if b.startswith("pos(") or b.startswith("len("):
+                return b
+        for b in cands:
+            m = _LOCAL.fullmatch(b)
+            if m and int(m.group(1)) in self.fv.local_name:
+                return b
+        return term
+
     def prove_bool(self, st, o, expected):
         """Is the bool operand provably == expected in st?"""
         if "k" in o:
@@ -1318,6 +1394,56 @@ def analyse(prog, key, profile="debug"):
     return it
 
 
+def summarise(it):
+    """Return-value summary of an analysed function: ranges/value sets of `_0` and of its success payload (incl.
+    tuple fields), and zone facts over parameter-rooted cursor terms that hold at every successful return."""
+    ranges = {}
+    post = None
+    f = it.f
+    params = range(1, f["argc"] + 1)
+    first = True
+    for st in (it.ret_defs or it.ret_states):
+        if st.z.bottom:
+            continue
+        tag = st.tags.get("L0")
+        rs = {}
+        for t in st.z.terms():
+            if t == "L0" or t.startswith("L0."):
+                sfx = t[2:]
+                lo, hi = st.z.lo(t), st.z.hi(t)
+                rs[sfx] = (lo, hi, st.vals.get(t))
+        for sfx in set(ranges) | set(rs) if not first else set(rs):
+            a = ranges.get(sfx) if not first else rs.get(sfx)
+            b = rs.get(sfx)
+            if a is None or b is None:
+                # a suffix that is not present on some return path is only meaningful under that path's variant;
+                # payload suffixes (.v0 / .v1) are variant-specific, keep the one that has them
+                if sfx.startswith(".v"):
+                    ranges[sfx] = a or b
+                else:
+                    ranges.pop(sfx, None)
+                continue
+            vs = (a[2] | b[2]) if (a[2] and b[2] and len(a[2] | b[2]) <= 8) else None
+            ranges[sfx] = (min(a[0], b[0]), max(a[1], b[1]), vs)
+        first = False
+        # success-path cursor facts
+        if tag is not None and tag <= frozenset(["Ok", "Some"]) or tag is None:
+            facts = set()
+            for p in params:
+                pt = "pos(L%d.*)" % p
+                lt = "len(L%d)" % p
+                if pt in st.z.terms():
+                    d = st.z.dist(pt, lt)
+                    if d != INF:
+                        facts.add(("pos(P%d.*)" % p, "len(P%d)" % p, d))
+            if tag is not None:
+                post = facts if post is None else {(a, b, max(c, dict(((x, y), z) for x, y, z in facts).get((a, b), INF))) for a, b, c in post if (a, b) in {(x, y) for x, y, z in facts}}
+    out = {"ranges": {k: v for k, v in ranges.items() if not (v[0] == -INF and v[1] == INF and not v[2])}}
+    if post:
+        out["post_ok"] = [x for x in post if x[2] != INF]
+    return out
+
+
 def check_panic_freedom(prog, rule, roots, prop, scope_crates=("rustybgp_packet",), profile="debug", extra_skip=None):
     """Run the interpreter over every local function reachable from `roots` and turn open obligations into
     rule violations unless listed (with still-valid reasons) in specs/reviewed_sites.json."""
@@ -1333,11 +1459,30 @@ def check_panic_freedom(prog, rule, roots, prop, scope_crates=("rustybgp_packet"
     fns = sorted(k for k in reach if k.split("::")[0] in scope_crates)
     n_open = 0
     seen_keys = set()
+    # pass 1: return summaries (two rounds so that summaries of callees feed their callers' summaries)
+    cache = getattr(prog, "_absint_cache", None)
+    if cache is None:
+        cache = prog._absint_cache = {}
+    if not hasattr(prog, "_absint_summaries"):
+        prog._absint_summaries = {}
+    for rnd in range(2):
+        for k in fns:
+            if (k, profile, "s", rnd) in cache:
+                continue
+            try:
+                it0 = analyse(prog, k, profile)
+                prog._absint_summaries[k] = summarise(it0)
+                cache[(k, profile, "s", rnd)] = True
+            except Exception:
+                pass
     for k in fns:
         if extra_skip and extra_skip(k):
             continue
         try:
-            it = analyse(prog, k, profile)
+            it = cache.get((k, profile, "final"))
+            if it is None:
+                it = analyse(prog, k, profile)
+                cache[(k, profile, "final")] = it
         except Exception as ex:  # analysis crash = fail closed
             rule.unanalysable("abstract interpreter crashed on %s: %r" % (prog.name(k), ex))
             continue
